@@ -21,6 +21,7 @@ import (
 
 	"github.com/iDigitalFlame/xmt/c2"
 	"github.com/iDigitalFlame/xmt/com"
+	"github.com/iDigitalFlame/xmt/com/limits"
 	"github.com/iDigitalFlame/xmt/device"
 )
 
@@ -717,10 +718,14 @@ func c15GenPkt(r *Rng, nids int, dev int, reg []int) c15Pkt {
 		md := r.Chance(75)
 		for j := 0; j < k; j++ {
 			d := r.Intn(nids)
-			if !md || r.Chance(25) {
+			foreignInSingle := !md && r.Chance(35) // an element of a single-device batch that names another device
+			if (!md && !foreignInSingle) || (md && r.Chance(25)) {
 				d = dev
 			}
 			s := c15GenSub(r, nids, d)
+			if foreignInSingle && r.Chance(50) {
+				s.flags |= uint64(com.FlagProxy)
+			}
 			if r.Chance(5) {
 				s.flags |= uint64(com.FlagMulti)
 			}
@@ -1227,6 +1232,34 @@ func runC15(c *Ctx) {
 		op := "chan " + strings.Join(hexids, ",") + " " + strings.Join(toks, " ")
 		c.Op(op, strings.Join(outs, " | "))
 		c.Eval(len(toks) >= 4, op)
+	})
+	// B3. relaying: a proxy's parent Session forwards a client's packet with write(); when it is larger
+	// than the fragment limit the fragments must still name the client, not the relaying Session
+	c.Cases("relayfrag", c.N(120, 1500), func(r *Rng, i int) {
+		saveF := limits.Frag
+		defer func() { limits.Frag = saveF }()
+		F := []int{64, 100, 257, 1000}[r.Intn(4)]
+		limits.Frag = F
+		relay, client := c15RandID(r), c15RandID(r)
+		snd, _ := c2.VerifC02NewSession(relay, false, 4096)
+		p := &com.Packet{ID: uint8(0x20 + r.Intn(0x80)), Job: uint16(2 + r.Intn(60000)), Device: client}
+		p.Write(r.Bytes(F + 1 + r.Intn(3*F)))
+		if r.Chance(30) {
+			p.Flags |= com.FlagProxy
+		}
+		if err := snd.VerifC02Write(true, p); err != nil {
+			return
+		}
+		frs := snd.VerifC02Drain()
+		for k, f := range frs {
+			if f.Device != client {
+				c.Fail("relay", "relay-fragment-relabelled:Session.write", fmt.Sprintf("fragment %d of %d of a packet naming %s, written by the relaying Session %s, names %s", k, len(frs), client, relay, f.Device),
+					map[string]interface{}{"F": F, "relay": relay.String(), "client": client.String(), "fragments": len(frs)})
+				break
+			}
+		}
+		c.Count(fmt.Sprintf("relayfrag:frags=%d", minInt(len(frs), 5)))
+		c.Eval(len(frs) >= 2, fmt.Sprint("relayfrag", F, len(frs), i))
 	})
 	// C. proxy side histories: ids[0] is the parent Session of the proxy
 	c.Cases("prx", c.N(2000, 80000), func(r *Rng, i int) {
